@@ -21,6 +21,7 @@ REPLAY = (os.path.join(os.environ["VERIF_EVID_DIR"], "replay") if os.environ.get
           else os.path.join(VERIF, "replay"))
 KNOWN = os.path.join(VERIF, "known_findings.txt")
 NCPU = min(16, os.cpu_count() or 4)
+T_START = time.time()
 
 SAN_ENV = {
     "ASAN_OPTIONS": "abort_on_error=0:exitcode=77:detect_leaks=0:allocator_may_return_null=1:"
@@ -322,7 +323,7 @@ class Run:
         self.tier = tier
         self.level = level
         self.seed = seed_from_env()
-        self.t0 = time.time()
+        self.t0 = T_START
         self.cov = {"evaluations": 0, "distinct_nontrivial": 0, "rule": "", "samples": []}
         self.assumptions = []
         self.viol = {}           # key -> first witness dict
